@@ -917,6 +917,15 @@ func (in *inliner) eligibleCallee(fd *ast.FuncDecl) bool {
 	if fd.Body == nil || fd.Type.TypeParams != nil {
 		return false
 	}
+	// a helper parameterised by a channel (one deliver function shared by tunnel and router) stays a function:
+	// the channel-operation index resolves the parameter through its call sites (chanParamFields)
+	if fd.Type.Params != nil {
+		for _, f := range fd.Type.Params.List {
+			if _, isCh := f.Type.(*ast.ChanType); isCh {
+				return false
+			}
+		}
+	}
 	if bodyHas(fd.Body, func(n ast.Node) bool {
 		if c, ok := n.(*ast.CallExpr); ok {
 			if id, ok := c.Fun.(*ast.Ident); ok && id.Name == "recover" {
